@@ -1,5 +1,5 @@
 From Coq Require Import Extraction ExtrOcamlBasic.
-From GM Require Import Base.Topic Model.WsConn Model.SubTrie Model.SubSpec Model.TopicMatch Base.Msg Model.RetTrie Oracle.C18O Oracle.C02O Oracle.C07O.
+From GM Require Import Base.Topic Model.WsConn Model.SubTrie Model.SubSpec Model.TopicMatch Base.Msg Model.RetTrie Oracle.C18O Oracle.C02O Oracle.C07O Model.Queue Oracle.C10O.
 Extraction Language OCaml.
 Set Extraction KeepSingleton.
 Extraction "model.ml"
@@ -8,4 +8,5 @@ Extraction "model.ml"
   C02O.c02_query_ok C02O.c11_query_ok C02O.mixed_query_ok C02O.expect_gstats C02O.expect_cstats
   C02O.expect_already C02O.model_already C02O.ires_eqb C02O.tm_ok C02O.tm_model
   RetTrie.rdb_run RetTrie.rspec_run RetTrie.retain_op C07O.rmodel_answer C07O.c07_store_ok C07O.mmeq Msg.msg_total_bytes
+  C10O.c10_ok C10O.model_outs C10O.oout_of
   TopicMatch.valid_name_spec TopicMatch.valid_filter_spec Topic.topic_match.
